@@ -1,2 +1,5 @@
 from . import tables  # noqa: F401
 from . import loops  # noqa: F401
+from . import keysrules  # noqa: F401
+from . import panics  # noqa: F401
+from . import decoder  # noqa: F401
